@@ -78,8 +78,9 @@ def run_async_job(job):
         on_boundary = None
         if S is not None:
             sc = run.get("sched", {})
-            S.new_schedule(seed=sc.get("seed", ri), policy=sc.get("policy", "random"), replay=sc.get("replay"))
+            S.new_schedule(seed=sc.get("seed", ri), policy=sc.get("policy", "random"), replay=sc.get("replay"), hold=sc.get("hold", 0))
             on_boundary = S.quiesce
+            wd = lambda f, w: (S.call_boundary(w), f())[1]  # noqa: E731  (the user thread can be pre-empted between two API calls)
         else:
             to = job.get("call_timeout", 60)
             wd = lambda f, w: arun.call_with_watchdog(f, to, w)  # noqa: E731
